@@ -59,7 +59,7 @@ package parse
 //@ func Input.Pos
 // (no buffer invariant needed: Pos is also called after Restore has given the terminator byte back)
 //@   requires[S] z != nil
-//@   ensures[S]  result == z.pos - z.start
+//@   ensures[S]  0 <= z.start && 0 <= z.pos ==> result == z.pos - z.start
 
 //@ func Input.Rewind
 //@   requires[S] bufInv(z) && 0 <= z.start+pos && z.start+pos <= len(z.buf)-1
@@ -386,6 +386,9 @@ package parse
 // every run of white space is rewritten to a single space, or to a newline if it contained a line break: after an iteration
 // that started on a white-space byte, that byte holds ' ' or '\n' (whatever the run's length; compaction never writes there)
 //@   loop 1 transition[F,C17] @run-normalised: isWS(prev(b[i])) ==> b[prev(i)] == ' ' || b[prev(i)] == '\n'
+// the flag means 'the run scanned so far contains a line break' (anywhere in the run, \n or \r)
+//@   loop 2 invariant[F] @newline-flag: newline <==> exists(q, start, i, b[q] == '\n' || b[q] == '\r')
+//@   loop 2 invariant[F] start < i && i <= len(b)
 //@   loop 2 invariant[F] @newline-kept: (b[start] == '\n' || b[start] == '\r') ==> newline
 //@   loop 1 transition[F,C17] @run-newline: isWS(prev(b[i])) && (prev(b[i]) == '\n' || prev(b[i]) == '\r') ==> b[prev(i)] == '\n'
 //@   loop * candidate 0 <= i && i <= len(b)
@@ -455,6 +458,8 @@ package parse
 //@   ensures[S,C17] @never-longer: len(result) <= len(b)
 // as in ReplaceMultipleWhitespace: the first byte of every white-space run holds ' ' or '\n' after the iteration that met it
 //@   loop 1 transition[F,C17] @run-normalised: isWS(prev(b[i])) ==> b[prev(i)] == ' ' || b[prev(i)] == '\n'
+// as in ReplaceMultipleWhitespace: the flag means 'the run scanned so far contains a line break' (\n or \r, anywhere in it)
+//@   loop 2 invariant[F] @newline-flag: newline <==> exists(q, start, i, b[q] == '\n' || b[q] == '\r')
 //@   loop 1 invariant 0 <= j && j <= k && k <= i && i <= len(b) + 1 && k <= len(b) && len(b) <= len(old(b)) && ptr(b) == ptr(old(b)) && cap(b) == cap(old(b)) && ((j == 0) == (k == 0)) && (j != 1 || 2 <= k)
 //@   loop 2 invariant 0 <= j && j <= k && k <= start && start < i && i <= len(b) && len(b) <= len(old(b)) && ptr(b) == ptr(old(b)) && cap(b) == cap(old(b)) && ((j == 0) == (k == 0)) && (j != 1 || 2 <= k)
 //@   loop * candidate 0 <= j && j <= k && k <= i
